@@ -28,7 +28,18 @@ def run_case(binary, c, real=False):
             "--pika:threads=%s" % (c["n"] if c["threads"] == "n" else c["threads"])]
     env = dict(os.environ)
     pre = []
-    if real:
+    if c.get("perm"):
+        # synthetic topology with the OS numbering Linux gives SMT siblings (logical PU i has OS index perm[i]),
+        # applied to this machine so that the binding calls reach the kernel; the process mask is given in OS
+        # indexes
+        perm = c["perm"]
+        env["HWLOC_SYNTHETIC"] = "package:%d core:%d pu:%d(indexes=%s)" % (c["s"], c["c"], c["p"], ",".join(map(str, perm)))
+        env["HWLOC_THISSYSTEM"] = "1"
+        omask = 0
+        for b in c["mask"]:
+            omask |= 1 << perm[b]
+        args.append("--pika:process-mask=0x%x" % omask)
+    elif real:
         pre = ["taskset", "-c", ",".join(str(b) for b in c["mask"])]
     else:
         env["HWLOC_SYNTHETIC"] = "package:%d core:%d pu:%d" % (c["s"], c["c"], c["p"])
@@ -66,10 +77,25 @@ def run():
         real_cases.append(dict(s=1, c=16, p=1, mask=m, threads=th, n=n,
                                bind=rng.choice(["compact", "scatter", "balanced", "numa-balanced"]), second=second, real=1))
 
+    # topologies whose OS numbering is not the logical one, bound for real
+    perm_cases = []
+    for i in range(200 if chk.thorough() else 60):
+        s_, c_, p_ = rng.choice([(1, 4, 2), (2, 2, 2), (1, 3, 2)])
+        npu = s_ * c_ * p_
+        ncore = s_ * c_
+        perm = [(l % p_) * ncore + l // p_ for l in range(npu)]    # siblings are CPU n and CPU n + ncores
+        k = rng.randint(1, npu)
+        m = sorted(rng.sample(range(npu), k))
+        th = rng.choice(["n", "n", "all", "cores"])
+        n = rng.randint(1, k + 1) if th == "n" else 0
+        perm_cases.append(dict(s=s_, c=c_, p=p_, mask=m, threads=th, n=n,
+                               bind=rng.choice(["compact", "scatter", "balanced", "numa-balanced"]), second=0,
+                               real=1, perm=perm))
+
     def one(c):
         res, err = run_case(binary, c, real=bool(c.get("real")))
         return c, res, err
-    results = vlib.parallel_map(one, cases + real_cases)
+    results = vlib.parallel_map(one, cases + real_cases + perm_cases)
     recs = []
     for c, res, err in results:
         if res is None:
@@ -79,6 +105,9 @@ def run():
         for w in res.get("workers", []):
             # on the real machine the mask the OS reports is what the worker is bound to
             mask = w["os"] if c.get("real") else w["mask"]
+            if c.get("perm"):
+                inv = {o: l for l, o in enumerate(c["perm"])}
+                mask = sorted(inv.get(o, 99) for o in w["os"])    # OS cpus the kernel reports -> logical PUs
             workers.append(dict(pu=w["pu"], mask=mask, pool=w["pool"]))
         rec = dict(e="case", out=dict(rejected=rejected, workers=workers))
         rec.update({k: c[k] for k in ("s", "c", "p", "mask", "threads", "n", "bind", "second")})
